@@ -63,6 +63,7 @@ class Ctx:
     # ---- parallel map over work units (fork once per call) -------------
     def pmap(self, func, units, chunksize=1, ordered=False):
         units = list(units)
+        func = ImplGuard(func, self.repo, self.prop)
         if self.seed and not ordered:
             # seed only permutes the order in which partitions are taken
             k = self.seed % max(1, len(units))
@@ -76,6 +77,39 @@ class Ctx:
             it = pool.imap(func, units, chunksize) if ordered else pool.imap_unordered(func, units, chunksize)
             for r in it:
                 yield r
+
+
+class ImplGuard:
+    """Safety net around a work unit: an exception that comes OUT OF THE IMPLEMENTATION (the frame
+    below the last harness frame is a file of the repository under test) while a unit drives it with
+    legal operations is a violation, not a harness crash.  The units catch what they expect to be
+    raised; this catches the rest (seeded: a handle cache shared between Datastore objects made a
+    later store use a closed connection).  Exceptions raised by harness code itself still propagate."""
+
+    def __init__(self, func, repo, prop):
+        self.func = func
+        self.repo = os.path.realpath(repo) + os.sep
+        self.prop = prop
+
+    def __call__(self, x):
+        try:
+            return self.func(x)
+        except Exception as e:
+            import traceback
+
+            tb = traceback.extract_tb(e.__traceback__)
+            verif = os.path.dirname(os.path.dirname(os.path.abspath(__file__))) + os.sep
+            last_h = max((i for i, fr in enumerate(tb) if os.path.realpath(fr.filename).startswith(verif)), default=None)
+            if last_h is None or last_h + 1 >= len(tb) or not os.path.realpath(tb[last_h + 1].filename).startswith(self.repo):
+                raise
+            site = tb[last_h]
+            inner = tb[-1]
+            rel = os.path.realpath(inner.filename)
+            rel = rel[len(self.repo):] if rel.startswith(self.repo) else os.path.basename(rel)
+            key = f"implementation-raised:{type(e).__name__}@{rel}:{inner.name}"
+            what = f"{type(e).__name__}: {str(e)[:200]} raised from {rel}:{inner.lineno} ({inner.name}) while the harness was executing `{(site.line or '').strip()[:120]}` ({os.path.basename(site.filename)}:{site.lineno}) in work unit {repr(x)[:300]}"
+            v = {"key": key, "what": what, "case": {"kind": "impl-raised", "unit": repr(x)[:2000], "func": f"{self.func.__module__}.{getattr(self.func, '__name__', '?')}"}, "size": len(repr(x)), "count": 1}
+            return {"violations": [v], "exhaustive": False, "caps": ["a work unit was abandoned because the implementation raised"], "self": ("abandoned", repr(x)[:200]), "path": x if isinstance(x, tuple) else (), "succ": []}
 
 
 class Agg:
@@ -203,7 +237,8 @@ def finalize(ctx, mod, agg, wall, write_evidence=True):
         lines.append(f"VIOLATION property={prop} replay={path}  # {v['key']}: {v['what']} ({v['count']}x)")
         rc = 1
     for msg in ctx.selfcheck_failures:
-        lines.append(f"HARNESS-SELFCHECK-FAILED property={prop}: {msg}")
+        # with a violation on the table a thin exploration is a consequence (units abandoned, search cut short), not a harness problem
+        lines.append(f"HARNESS-SELFCHECK-FAILED property={prop}: {msg}" if rc == 0 else f"NOTE property={prop}: exploration was cut short by the violation(s) above ({msg})")
     if ctx.selfcheck_failures and rc == 0:
         rc = 2
 
